@@ -67,6 +67,8 @@ func main() {
 				die("%v", err)
 			}
 			code = 0
+		case "selftest":
+			code = selftest(env)
 		case "replay":
 			if len(pos) < 2 {
 				die("replay needs a file")
@@ -761,4 +763,233 @@ func replay(env *run.Env, path string) int {
 	}
 	fmt.Println("replay: no mismatch for property", rf.Property)
 	return 0
+}
+
+// selftest demonstrates the binding between the recorded traces and the specification: a valid trace is
+// accepted; the same trace with ONE logged field corrupted (a mantissa digit, the exponent, the accuracy, the
+// precision, the mode, a word at the base, an observer's return value) or one event deleted is rejected at
+// (or right after) that event. Exit 0 if every corruption is caught, 2 otherwise.
+func selftest(env *run.Env) int {
+	bin, err := env.BuildExec("vexec", "", false)
+	if err != nil {
+		die("%v", err)
+	}
+	g := gen.New(env.Seed, false)
+	progs := gen.Round(g, 60)
+	progs = append(progs, gen.Cmp(g, 10)...)
+	base := validate(env, bin, "Trace_Core", 0, progs, 3000)
+	if base.err != nil {
+		die("selftest: %v", base.err)
+	}
+	if len(base.bad) != 0 {
+		die("selftest: the unmodified trace is not accepted (%d mismatches)", len(base.bad))
+	}
+	type corruption struct {
+		name string
+		op   string // event to corrupt
+		f    func(ev map[string]any) bool
+	}
+	post := func(ev map[string]any, reg string) map[string]any {
+		p, _ := ev["post"].(map[string]any)
+		o, _ := p[reg].(map[string]any)
+		return o
+	}
+	finiteZ := func(ev map[string]any) map[string]any {
+		z, _ := ev["z"].(string)
+		o := post(ev, z)
+		if o == nil || o["form"] != "finite" {
+			return nil
+		}
+		return o
+	}
+	cs := []corruption{
+		{"one mantissa digit", "Mul", func(ev map[string]any) bool {
+			o := finiteZ(ev)
+			if o == nil {
+				return false
+			}
+			ws := o["words"].([]any)
+			w := []byte(ws[len(ws)-1].(string))
+			if len(w) != 19 {
+				return false
+			}
+			if w[1] == '9' {
+				w[1] = '8'
+			} else {
+				w[1]++
+			}
+			ws[len(ws)-1] = string(w)
+			o["minprec"] = o["minprec"] // unchanged: the getter now disagrees or the value is wrong
+			return true
+		}},
+		{"exponent", "Add", func(ev map[string]any) bool {
+			o := finiteZ(ev)
+			if o == nil {
+				return false
+			}
+			o["exp"] = o["exp"].(float64) + 1
+			o["mantexp"] = o["mantexp"].(float64) + 1
+			return true
+		}},
+		{"accuracy", "Quo", func(ev map[string]any) bool {
+			o := finiteZ(ev)
+			if o == nil {
+				return false
+			}
+			if o["acc"].(float64) == 0 {
+				o["acc"] = 1.0
+			} else {
+				o["acc"] = 0.0
+			}
+			return true
+		}},
+		{"precision", "Sub", func(ev map[string]any) bool {
+			o := finiteZ(ev)
+			if o == nil {
+				return false
+			}
+			o["prec"] = o["prec"].(float64) + 1
+			return true
+		}},
+		{"rounding mode", "Mul", func(ev map[string]any) bool {
+			o := finiteZ(ev)
+			if o == nil {
+				return false
+			}
+			o["mode"] = float64((int(o["mode"].(float64)) + 1) % 6)
+			return true
+		}},
+		{"a word equal to the base", "Add", func(ev map[string]any) bool {
+			o := finiteZ(ev)
+			if o == nil {
+				return false
+			}
+			ws := o["words"].([]any)
+			ws[0] = "10000000000000000000"
+			return true
+		}},
+		{"an operand changed behind the call", "Quo", func(ev map[string]any) bool {
+			x, _ := ev["x"].(string)
+			z, _ := ev["z"].(string)
+			o := post(ev, x)
+			if o == nil || x == z {
+				return false
+			}
+			o["neg"] = !(o["neg"].(bool))
+			return true
+		}},
+		{"Cmp result", "Cmp", func(ev map[string]any) bool {
+			r := ev["ret"].(map[string]any)
+			v := r["v"].(float64)
+			if v == 0 {
+				r["v"] = 1.0
+			} else {
+				r["v"] = -v
+			}
+			return true
+		}},
+	}
+	failed := 0
+	for ci, c := range cs {
+		// corrupt the first suitable event after the first third of the trace
+		lines := make([][]byte, len(base.evLines))
+		copy(lines, base.evLines)
+		at := -1
+		for i := len(lines) / 3; i < len(lines); i++ {
+			var ev map[string]any
+			if json.Unmarshal(lines[i], &ev) != nil || ev["op"] != c.op || ev["out"] != "ok" {
+				continue
+			}
+			if c.f(ev) {
+				b, _ := json.Marshal(ev)
+				lines[i] = b
+				at = i
+				break
+			}
+		}
+		if at < 0 {
+			fmt.Printf("selftest: %-36s no suitable event\n", c.name)
+			failed++
+			continue
+		}
+		bad, err := validateLines(env, "Trace_Core", 100+ci, lines)
+		hit := false
+		for _, b := range bad {
+			if b.L == at+1 {
+				hit = true
+			}
+		}
+		if err != nil || !hit {
+			fmt.Printf("selftest: %-36s NOT caught at event %d (err=%v, %d mismatches)\n", c.name, at+1, err, len(bad))
+			failed++
+		} else {
+			fmt.Printf("selftest: %-36s caught at event %d: %v\n", c.name, at+1, bad[0])
+		}
+	}
+	// a deleted event: the next event that names the skipped receiver no longer matches the model state
+	{
+		lines := make([][]byte, 0, len(base.evLines))
+		del := -1
+		for i, ln := range base.evLines {
+			if del < 0 && i > len(base.evLines)/3 && strings.Contains(string(ln[:min(len(ln), 300)]), `"op":"Load"`) {
+				del = i
+				continue
+			}
+			lines = append(lines, ln)
+		}
+		bad, err := validateLines(env, "Trace_Core", 200, lines)
+		if err != nil || len(bad) == 0 {
+			fmt.Printf("selftest: %-36s NOT caught (err=%v)\n", "one event deleted", err)
+			failed++
+		} else {
+			fmt.Printf("selftest: %-36s caught (deleted event %d, first mismatch at %d: %s/%s)\n", "one event deleted", del+1, bad[0].L, bad[0].PID, bad[0].Kind)
+		}
+	}
+	if failed > 0 {
+		return 2
+	}
+	fmt.Println("selftest: every corruption of the recorded trace is rejected by the specification")
+	return 0
+}
+
+// validateLines runs the trace specification on the given event lines.
+func validateLines(env *run.Env, traceMod string, idx int, lines [][]byte) ([]badEntry, error) {
+	ef := filepath.Join(env.Scratch, fmt.Sprintf("st%d.ev.ndjson", idx))
+	if err := os.WriteFile(ef, append(bytesJoin(lines), '\n'), 0o644); err != nil {
+		return nil, err
+	}
+	res, err := env.TLC(traceMod, nil, 1, 3000, []string{"VERIF_TRACE=" + ef}, 10*time.Minute)
+	if err != nil {
+		return nil, err
+	}
+	if !res.OK || len(res.Verdicts) != 1 {
+		return nil, fmt.Errorf("trace not consumed: %s", errStr(res.Output))
+	}
+	var v verdict
+	if err := json.Unmarshal([]byte(res.Verdicts[0]), &v); err != nil {
+		return nil, err
+	}
+	var out []badEntry
+	for _, b := range v.Bad {
+		e := badEntry{}
+		if f, ok := b[0].(float64); ok {
+			e.L = int(f)
+		}
+		e.PID, _ = b[1].(string)
+		e.Kind, _ = b[2].(string)
+		out = append(out, e)
+	}
+	sort.Slice(out, func(i, j int) bool { return out[i].L < out[j].L })
+	return out, nil
+}
+
+func bytesJoin(lines [][]byte) []byte {
+	var b []byte
+	for i, l := range lines {
+		if i > 0 {
+			b = append(b, '\n')
+		}
+		b = append(b, l...)
+	}
+	return b
 }
